@@ -44,6 +44,9 @@ deriving Repr, DecidableEq
 /-- `i = i < 0 ? n+i : i` -/
 def normIdx (n : Nat) (i : Int) : Int := if i < 0 then (n : Int) + i else i
 
+/-- two indices name the same position of a sequence of length `n` -/
+def sameIdx (n : Nat) (i k : Int) : Bool := normIdx n i == normIdx n k
+
 /-- the index normalisation of `Array_Push_At`: `i = i < 0 ? (n+1)+i : i` (against the length *after* the insertion) -/
 def pushIdx (n : Nat) (i : Int) : Int := if i < 0 then ((n : Int) + 1) + i else i
 
@@ -166,6 +169,24 @@ def iterBwd (a : Arr α) : Option (List α) := collect a.iterPrev (fun k => a.it
 end Arr
 
 /-! ## List -/
+
+/-- Element types, as far as `List_Resize` is concerned.  Growing a List links nodes that come straight from `calloc`
+    (`List_Alloc`): all-zero records with a header, never constructed.  `zeroOk = true`: that record IS a value of the type,
+    namely `default` (Int: 0, Float: 0.0, the byte-record types of the harness).  `zeroOk = false`: it is not an object the
+    type's own operations accept — String: `val = NULL`, so `eq` / `cmp` / `show` / `hash` / `len` on it are `strcmp(NULL, …)`,
+    `strlen(NULL)` (reproduced: `l = new(List, String, $S("a")); resize(l, 3); mem(l, $S("zz"))` → SIGSEGV); any type that
+    owns storage is like that.  Known finding KF-C04-list-resize-raw (same root as C05's KF-C05-list-resize-raw). -/
+class ZeroIsValue (α : Type) extends Inhabited α where
+  zeroOk : Bool
+
+instance : ZeroIsValue Int := ⟨true⟩
+instance : ZeroIsValue Nat := ⟨true⟩
+
+/-- a String-like element (what the harness kinds AS / LS hold): the all-zero record is not a value -/
+structure StrElem where
+  v : Int
+deriving Repr, DecidableEq, Inhabited
+instance : ZeroIsValue StrElem := ⟨false⟩
 
 structure Lst (α : Type) where
   items : List α        -- the chain from `head` along `next`
@@ -436,6 +457,87 @@ def Lst.pushAtElem (l : Lst α) (k i : Int) : Lst α × Res Unit :=
   match l.get k with
   | .ok x => l.pushAt x i | .raised e => (l, .raised e) | .ub => (l, .ub)
 
+/-- read the elements named by `ks` in order: what `tuple(get(x, k0), get(x, k1), …)` evaluates before the call; the first
+    index out of range raises -/
+def getAll (get : Int → Res α) : List Int → Res (List α)
+  | [] => .ok []
+  | k :: ks =>
+    match get k with
+    | .raised e => .raised e
+    | .ub => .ub
+    | .ok x => match getAll get ks with
+      | .ok xs => .ok (x :: xs)
+      | r => r
+
+/-- `concat(a, tuple(get(a, k0), get(a, k1), …))` on an Array: the operand holds POINTERS to records of the block.
+    `Array_Concat` does `nitems += len(obj); Array_Reserve_More` (a `realloc` when the capacity is exceeded: the pointers
+    then point into freed memory) and only then `foreach (item in obj) assign(record, item)` — a use after free exactly
+    when the Array has to grow and the operand is not empty (known finding KF-C04-push-own-element, site Array_Concat).
+    With spare capacity the records named by the operand are not touched before they are read: same as passing values. -/
+def Arr.concatElems (a : Arr α) (ks : List Int) : Arr α × Res Unit :=
+  match getAll a.get ks with
+  | .raised e => (a, .raised e)
+  | .ub => (a, .ub)
+  | .ok xs => if xs ≠ [] ∧ a.nitems + xs.length > a.nslots then (a, .ub) else a.concat xs
+
+/-- `assign(a, tuple(get(a, k0), …))` on an Array: `Array_Assign` calls `Array_Clear(self)` — every record destroyed, the
+    block freed — BEFORE it reads `get(obj, i)`: with a non-empty operand of pointers into that block every read is a
+    use after free (same known finding, site Array_Assign).  An empty operand just clears. -/
+def Arr.assignElems (a : Arr α) (ks : List Int) : Arr α × Res Unit :=
+  match getAll a.get ks with
+  | .raised e => (a, .raised e)
+  | .ub => (a, .ub)
+  | .ok xs => if xs ≠ [] then (a, .ub) else a.assign []
+
+/-- `concat(l, tuple(get(l, k0), …))` on a List: each item is copied into a fresh node by `List_Push`; nothing moves and
+    nothing is freed: same as passing the values -/
+def Lst.concatElems (l : Lst α) (ks : List Int) : Lst α × Res Unit :=
+  match getAll l.get ks with
+  | .raised e => (l, .raised e)
+  | .ub => (l, .ub)
+  | .ok xs => l.concat xs
+
+/-- `assign(l, tuple(get(l, k0), …))` on a List: `List_Assign` calls `List_Clear(self)` — every node destroyed and freed —
+    before it reads the operand: use after free for a non-empty operand (same known finding, site List_Assign) -/
+def Lst.assignElems (l : Lst α) (ks : List Int) : Lst α × Res Unit :=
+  match getAll l.get ks with
+  | .raised e => (l, .raised e)
+  | .ub => (l, .ub)
+  | .ok xs => if xs ≠ [] then (l, .ub) else l.assign []
+
+/-- `set(a, i, get(a, k))` on an Array: `Array_Set` checks `i` and then does `assign(record i, obj)` with `obj` = the address of
+    record `k`.  Nothing moves, so for `i ≠ k` (after normalisation) this is `set(a, i, v)`.  For `i = k` it is `assign(x, x)` ON THE
+    ELEMENT: Int and the byte-record types copy the record onto itself; `String_Assign` returns at once since fix 744a45f
+    (`val is s->val`).  `elemSelfAssignOk = false` is the String code BEFORE that fix: `realloc` of the buffer, then `strcpy`
+    from the old one — a use after free. -/
+def Arr.setElem (a : Arr α) (i k : Int) (elemSelfAssignOk : Bool := true) : Arr α × Res Unit :=
+  match a.get k with
+  | .raised e => (a, .raised e)
+  | .ub => (a, .ub)
+  | .ok x =>
+    if !elemSelfAssignOk && sameIdx a.nitems i k then (a, .ub) else a.set i x
+
+/-- `set(l, i, get(l, k))` on a List: `assign(List_At(l, i), obj)` — the same, on nodes -/
+def Lst.setElem (l : Lst α) (i k : Int) (elemSelfAssignOk : Bool := true) : Lst α × Res Unit :=
+  match l.get k with
+  | .raised e => (l, .raised e)
+  | .ub => (l, .ub)
+  | .ok x =>
+    if !elemSelfAssignOk && sameIdx l.nitems i k then (l, .ub) else l.set i x
+
+/-- `rem(x, get(x, k))`: the scan compares every element with the one passed (for its own position: `eq(x, x)`), the element is
+    not read again after the first match was found: same as passing the value (all three types; for a Tuple the argument
+    order of `eq` is the other one) -/
+def Arr.remElem [BEq α] (a : Arr α) (k : Int) : Arr α × Res Unit :=
+  match a.get k with
+  | .ok x => a.rem x | .raised e => (a, .raised e) | .ub => (a, .ub)
+def Lst.remElem [BEq α] (l : Lst α) (k : Int) : Lst α × Res Unit :=
+  match l.get k with
+  | .ok x => l.rem x | .raised e => (l, .raised e) | .ub => (l, .ub)
+def Tup.remElem [BEq α] (t : Tup α) (k : Int) : Tup α × Res Unit :=
+  match t.get k with
+  | .ok x => t.rem x | .raised e => (t, .raised e) | .ub => (t, .ub)
+
 /-- `assign(t, t)`: `Tuple_Assign` reallocs to the same size and stores `get(self, i)` at `i`: no change -/
 def Tup.assignSelf (t : Tup α) : Tup α × Res Unit := t.assign t.items
 
@@ -488,10 +590,19 @@ def Arr.step [BEq α] (a : Arr α) : Op α → Arr α × Res Unit
   | .set i x => a.set i x | .rem x => a.rem x | .concat ys => a.concat ys | .append x => a.push x
   | .resize n => a.resize n | .sort f => a.sortBy f | .assign ys b => a.assign ys b
 
-def Lst.step [BEq α] [Inhabited α] (l : Lst α) : Op α → Lst α × Res Unit
+/-- the territory of known finding KF-C04-list-resize-raw: `resize(l, n)` beyond the length of a List whose element type does
+    not have the all-zero record as a value -/
+def Lst.rawGrow [ZeroIsValue α] (l : Lst α) : Op α → Bool
+  | .resize n => !ZeroIsValue.zeroOk α && decide (n > l.nitems)
+  | _ => false
+
+/-- `resize` in `rawGrow` territory does what `List_Resize` does (the state is the grown List) and reports `.ub`: the List now
+    counts records that were never constructed and that no operation of the element type accepts -/
+def Lst.step [BEq α] [ZeroIsValue α] (l : Lst α) : Op α → Lst α × Res Unit
   | .push x => l.push x | .pop => l.pop | .pushAt x i => l.pushAt x i | .popAt i => l.popAt i
   | .set i x => l.set i x | .rem x => l.rem x | .concat ys => l.concat ys | .append x => l.push x
-  | .resize n => l.resize n | .sort f => l.sortBy f | .assign ys b => l.assign ys b
+  | .resize n => if l.rawGrow (.resize n) then ((l.resize n).1, .ub) else l.resize n
+  | .sort f => l.sortBy f | .assign ys b => l.assign ys b
 
 def Tup.step [BEq α] (t : Tup α) : Op α → Tup α × Res Unit
   | .push x => t.push x | .pop => t.pop | .pushAt x i => t.pushAt x i | .popAt i => t.popAt i
@@ -540,8 +651,8 @@ def arrStep [BEq α] (l : List α) : Op α → Option (List α)
   | .assign ys _ => some ys
 
 /-- … on a List: `push_at` takes key 0 always, otherwise an index of an existing element (inserting before it);
-    `resize` pads with zero-initialised elements; there is no `sort` -/
-def lstStep [BEq α] [Inhabited α] (l : List α) : Op α → Option (List α)
+    `resize` pads with zero-initialised elements — in range only for element types whose zero record is a value; there is no `sort` -/
+def lstStep [BEq α] [ZeroIsValue α] (l : List α) : Op α → Option (List α)
   | .push x => some (l ++ [x])
   | .pop => if l.isEmpty then none else some l.dropLast
   | .pushAt x i => if i = 0 then some (x :: l) else (idx l.length i).map (fun k => l.insertIdx k x)
@@ -550,7 +661,8 @@ def lstStep [BEq α] [Inhabited α] (l : List α) : Op α → Option (List α)
   | .rem x => if mem l x then some (l.erase x) else none
   | .concat ys => some (l ++ ys)
   | .append x => some (l ++ [x])
-  | .resize n => some (l.take n ++ List.replicate (n - l.length) default)
+  | .resize n =>     -- growth is in range only when the zero record is a value of the element type (`ZeroIsValue`; KF-C04-list-resize-raw)
+    if ZeroIsValue.zeroOk α || decide (n ≤ l.length) then some (l.take n ++ List.replicate (n - l.length) default) else none
   | .sort _ => none
   | .assign ys indexed => if indexed then some ys else none     -- a List can only be assigned from a source with Len and Get
 
